@@ -141,6 +141,21 @@ impl ToModel for std::borrow::Cow<'_, str> {
         Item::text(self)
     }
 }
+impl ToModel for std::borrow::Cow<'_, [u16]> {
+    fn to_model(&self) -> Item {
+        self.to_vec().to_model()
+    }
+}
+impl ToModel for std::borrow::Cow<'_, std::ffi::CStr> {
+    fn to_model(&self) -> Item {
+        Item::bytes(self.to_bytes_with_nul())
+    }
+}
+impl ToModel for std::borrow::Cow<'_, std::path::Path> {
+    fn to_model(&self) -> Item {
+        self.to_path_buf().to_model()
+    }
+}
 impl ToModel for std::ffi::CString {
     fn to_model(&self) -> Item {
         Item::bytes(self.as_bytes_with_nul())
@@ -488,6 +503,30 @@ impl Ty for std::borrow::Cow<'static, str> {
     }
     fn small() -> Vec<Self> {
         small_strings().into_iter().map(std::borrow::Cow::Owned).collect()
+    }
+}
+impl Ty for std::borrow::Cow<'static, [u16]> {
+    fn shape() -> Shape {
+        <Vec<u16> as Ty>::shape()
+    }
+    fn small() -> Vec<Self> {
+        <Vec<u16> as Ty>::small().into_iter().enumerate().map(|(i, v)| if i % 2 == 0 { std::borrow::Cow::Owned(v) } else { std::borrow::Cow::Borrowed(&*Vec::leak(v)) }).collect()
+    }
+}
+impl Ty for std::borrow::Cow<'static, std::ffi::CStr> {
+    fn shape() -> Shape {
+        Shape::CStr
+    }
+    fn small() -> Vec<Self> {
+        <std::ffi::CString as Ty>::small().into_iter().map(std::borrow::Cow::Owned).collect()
+    }
+}
+impl Ty for std::borrow::Cow<'static, std::path::Path> {
+    fn shape() -> Shape {
+        Shape::Str
+    }
+    fn small() -> Vec<Self> {
+        <std::path::PathBuf as Ty>::small().into_iter().map(std::borrow::Cow::Owned).collect()
     }
 }
 impl Ty for std::ffi::CString {
@@ -1284,6 +1323,9 @@ pub fn type_table() -> Vec<TypeEntry> {
     v.last_mut().unwrap().values = vals_arr::<String>;
     entry!(v, "Box<str>", Box<str>);
     entry!(v, "Cow<str>", std::borrow::Cow<'static, str>);
+    entry!(v, "Cow<[u16]>", std::borrow::Cow<'static, [u16]>, 2);
+    entry!(v, "Cow<CStr>", std::borrow::Cow<'static, std::ffi::CStr>);
+    entry!(v, "Cow<Path>", std::borrow::Cow<'static, std::path::Path>);
     entry!(v, "CString", std::ffi::CString);
     entry!(v, "ByteVec", ByteVec);
     entry!(v, "ByteArray<0>", ByteArray<0>);
